@@ -38,6 +38,8 @@ def default_profile(rng, tier="quick"):
         "lb_step": rng.random() < 0.5,  # lb != 0 / step != 1 allowed
         "max_stmts": 24,
         "repeat_bias": rng.choice([0, 0, 0.3, 0.6]),
+        "nest_passthrough": rng.choice([0, 0, 0.4]),
+        "if_head": rng.choice([0, 0, 0.4]),
     }
     if tier == "thorough" and rng.random() < 0.3:
         # deeper / larger programs in the thorough tier
@@ -82,6 +84,12 @@ class AccfgGen:
         k = r.choices(kinds, w)[0]
         self.count += 1
         if k == "sl":
+            return self.stmt_sl(scope)
+        return self.stmt_other(k, scope, depth, inloop)
+
+    def stmt_sl(self, scope):
+        r, p = self.r, self.p
+        if True:
             a = r.randrange(p["n_acc"])
             st = {"k": "sl", "acc": a, "vals": [self.pick(scope) for _ in range(p["n_fields"][a])], "gap": []}
             prev = self.history.get(a)
@@ -107,6 +115,9 @@ class AccfgGen:
                     g = r.choice(["pure", "opq", "call"])
                     st["gap"].append(self.simple(g, scope))
             return st
+
+    def stmt_other(self, k, scope, depth, inloop):
+        r, p = self.r, self.p
         if k in ("call", "opq", "pure"):
             return self.simple(k, scope)
         if k == "for":
@@ -137,7 +148,12 @@ class AccfgGen:
                     arg = self.fresh("lc")
                     node["carry"].append([arg, r.choice(scope), None])
                     inner = inner + [arg]
-            node["body"] = self.stmts(r.randint(1, 3), inner, depth + 1, True)
+            head = []
+            if p.get("if_head") and depth + 1 <= p["max_depth"] and r.random() < p["if_head"]:
+                # the loop body starts with a conditional (e.g. a conditional re-launch) directly followed by a launch
+                self.count += 2
+                head = [self.if_node(inner, depth + 1, True), self.stmt_sl(inner)]
+            node["body"] = head + self.stmts(r.randint(1, 3), inner, depth + 1, True)
             for c in node["carry"]:
                 # yield something computed in the body (or the argument itself / an outer value)
                 c[2] = r.choice(inner[-4:] + [c[0]])
@@ -146,9 +162,19 @@ class AccfgGen:
                 scope.append(res)
             return node
         # if
+        return self.if_node(scope, depth, inloop)
+
+    def if_node(self, scope, depth, inloop):
+        r, p = self.r, self.p
         node = {"k": "if", "cond": r.choice(["%b0", "%b1", "%b2"])}
         node["then"] = self.stmts(r.randint(1, 2), list(scope), depth + 1, inloop)
-        node["else"] = self.stmts(r.randint(0, 2), list(scope), depth + 1, inloop)
+        if p.get("nest_passthrough") and depth + 1 < p["max_depth"] + 1 and r.random() < p["nest_passthrough"]:
+            # the else path is itself conditional with an empty (pass-through) branch: the state after the if is the
+            # state before it on one path, a new one on the others
+            inner = {"k": "if", "cond": r.choice(["%b0", "%b1", "%b2"]), "then": self.stmts(1, list(scope), depth + 2, inloop), "else": []}
+            node["else"] = [inner]
+        else:
+            node["else"] = self.stmts(r.randint(0, 2), list(scope), depth + 1, inloop)
         return node
 
     def simple(self, k, scope):
